@@ -10,7 +10,7 @@
     the `core` correspondence family runs against the real chains. *)
 From IBC Require Import Core.ChainExamples.
 From IBC Require Import Lib.Bytes Core.Height Core.HeightFacts Core.Chain Core.World Core.WorldFacts Core.ChainFacts Core.ChainInv Core.ChainThms
-  Core.WorldInv Core.WorldInv2 Core.WorldInv3 Core.WorldThm Core.WorldV2 Core.WorldClose.
+  Core.WorldInv Core.WorldInv2 Core.WorldInv3 Core.WorldThm Core.WorldV2 Core.WorldClose Corr.CoreFam Corr.CoreFamFacts.
 Local Open Scope N_scope.
 
 (** source side, v1: a timeout is processed only if the consensus state at the proof height exists, the
@@ -212,6 +212,14 @@ Print Assumptions C04_log_records_accepted_on_close.
 Example C04_end_to_end_on_close_nonvacuous :
   WI3 exc0 /\ good_steps3 exc0 exc_steps /\ map ce_dst (ca (irun3 exc0 exc_steps)) = [(1, 20, 1)].
 Proof. exact (conj exc_wi (conj exc_good (proj1 exc_accepted))). Qed.
+
+(** the correspondence replays real two-chain histories on the same [wstep]; it counts a recorded block that is outside
+    the hypothesis [good_step] of the end-to-end theorems as a disagreement ([good_stepb] in Corr/CoreFam.v), so every
+    history on which model and implementation agree is one the theorems speak about *)
+Theorem C04_replayed_histories_meet_hypotheses w s :
+  good_stepb w s = true -> good_step w (mkWS (st_side s) (st_h s) (st_t s) (st_op s)).
+Proof. exact (good_stepb_sound w s). Qed.
+Print Assumptions C04_replayed_histories_meet_hypotheses.
 
 (** non-vacuity: a concrete state satisfies the invariant and a concrete 13-step history (duplicates, a failing
     application, an ORDERED timeout, multi-payload v2 receives) produces exactly the expected callbacks *)
